@@ -122,10 +122,16 @@ def gen_scenario(rng):
     """timed queries against a host with two services; all QM from port 5353"""
     evs = []
     t = 0
-    for _ in range(rng.randint(1, 5)):
+    for _ in range(rng.randint(1, 6)):
         kind = rng.choice(['ptr', 'ptr', 'ptr', 'srv', 'a', 'multi', 'tc', 'ptr-known'])
         src = rng.choice(['10.0.0.7', '10.0.0.8'])
-        evs.append((t, kind, src, rng.choice([20, 57, 120]), rng.choice([400, 450, 500]), rng.choice([0, 0, rng.randrange(1, 60000)])))
+        if evs and rng.random() < 0.35:
+            # the very same datagram again (same bytes, same source): a stream of copies, each less than a second after the previous one,
+            # is suppressed only for one second after the copy that was handled
+            kind, src, ident = evs[-1][1], evs[-1][2], evs[-1][5]
+            evs.append((t, kind, src, rng.choice([20, 57, 120]), rng.choice([400, 450, 500]), ident))
+        else:
+            evs.append((t, kind, src, rng.choice([20, 57, 120]), rng.choice([400, 450, 500]), rng.choice([0, 0, rng.randrange(1, 60000)])))
         t += rng.choice([0, 20, 119, 120, 121, 200, 499, 500, 501, 999, 1000, 1001, 1120, 2500, 7000])
     return evs
 
@@ -194,14 +200,25 @@ def oracle_scenario(log, esc):
 
     def sightings(ident, before):
         return [ts for ts, ids, _ in mc if ident in ids and ts <= before]
-    prev_data, prev_t, prev_src = None, None, None
+    # The listener's duplicate guard (C16) remembers the last datagram it HANDLED on the socket - queries and, with multicast loop-back,
+    # the instance's own transmissions coming back - and drops a byte-identical datagram arriving less than a second after it (none of
+    # these has a QU question). A dropped copy does not extend the window. Replay that memory over everything the socket received:
+    # at each instant first the injected queries in order, then the loop-back copies of what was sent at that instant.
+    recv = [(t, 0, i, data, src, i) for i, (_, t, kind, src, r, tcd, data) in enumerate(queries)]
+    recv += [(ts, 1, j, data, None, None) for j, (_, ts, dest, data) in enumerate(sends) if dest and dest[0] == '224.0.0.251']
+    recv.sort(key=lambda x: (x[0], x[1], x[2]))
+    g_data, g_t, g_src = None, None, None
+    verdict = {}
+    for (t, _, _, data, src, qi) in recv:
+        dup = g_data == data and t - 1000 < g_t
+        if qi is not None:
+            # from the same source: a link-layer duplicate, rightly ignored; from another source it is somebody else's query, which is
+            # then covered by the answer still pending for the first copy (the windows below are checked for it all the same)
+            verdict[qi] = (dup and g_src == src, dup and g_src != src)
+        if not dup:
+            g_data, g_t, g_src = data, t, src
     for i, (_, t, kind, src, r, tcd, data) in enumerate(queries):
-        # a byte-identical datagram within 1 s from the SAME source is a link-layer duplicate and is ignored (C16);
-        # from a different source it is somebody else's query and must be answered like any other
-        same_bytes = prev_data == data and t - prev_t < 1000
-        dropped = same_bytes and prev_src == src
-        other_source_dup = same_bytes and prev_src != src
-        prev_data, prev_t, prev_src = data, t, src
+        dropped, other_source_dup = verdict[i]
         if dropped or kind == 'tc':
             continue
         # a TC train in progress from this source is answered together with this query - still within this query's windows
